@@ -231,8 +231,8 @@ def run_case(ctx, h, nedits, lines=None, reals=None):
 
 def run(ctx):
     common.use_repo()
-    n = 800 if ctx.quick() else 15000
-    ned = 14 if ctx.quick() else 25
+    n = 800 if ctx.quick() else 6000
+    ned = 14 if ctx.quick() else 20
     ctx.rule = (f'{n} edit sequences (<= {ned}) over graphs of 2-4 dynamic classes: add/remove attribute or reference, add/remove '
                 'supertype at the front or the back (multiple inheritance, diamonds, every order), instance creation and feature '
                 'access interleaved; after every edit, for every instance created so far: dir(), getattr of every declared feature '
@@ -259,7 +259,7 @@ def search(ctx):
 def replay(ctx, data):
     common.use_repo()
     c2 = common.Ctx('C12', data['tier'], data['seed'])
-    run_case(c2, data['replay']['case'], 14 if data['tier'] == 'quick' else 25)
+    run_case(c2, data['replay']['case'], 14 if data['tier'] == 'quick' else 20)
     for v in c2.violations:
         print('  ', v['what']); print('  edits:', v['replay']['edits'])
     return 1 if c2.violations else 0
